@@ -25,11 +25,11 @@ CLAIMS = {
  'C18': ('proof', 'every extracted function whose compiler-evaluated exception specification is noexcept carries the obligation that no exception leaves it (r8); for the move constructor, allocator constructor, operator=(&&), assign(&&), swap, clear and the observers the declared specification (evaluated by the compiler through the noexcept operator) is compared with the README condition in every allocator-trait / element / N==0 configuration, and the documented condition implies !exc on the body; std::allocator, iterator-trait and nested-type facts are not covered.', '5.18'),
  'C17': ('proof', 'The header is extracted under -std=c++11/14/17/20/23 by the same compiler front end; per function, identical extracted text (with everything it inlines) shares the C++20 proof, differing text is proved against the SAME contract - same contract under every standard is the statement of the property. GCC and code generation are out of reach.', '5.17'),
  'C08': ('proof', 'configuration class CONSTEVAL (std::is_constant_evaluated () true, nothing throws, the container always owns an allocator block): the extracted constant-evaluation branches are proved against the SAME contracts as the run-time paths (sizes, values, returned positions, growth), with the lifetime/ledger/pointer obligations standing in for the evaluator\'s UB and leak detection, and memcpy/memmove unreachable; the compiler\'s evaluator itself is not modelled; public wrappers and two-container operations are not in the class yet.', '5.8'),
+ 'C16': ('proof', 'the six relational operators (C++11-17 forms; == also in C++20), non-member size/ssize/empty/data/begin/end/swap/erase under contract: the std algorithms they call are environment summaries that record their arguments and return an uninterpreted element-consistent result, so each contract pins down which algorithm runs on which ranges in which order and how the result is combined - the definition of the std::vector operators; equality of two containers implies equal watched elements at equal indices. Not covered: <=>, cross-capacity operand pairs, erase_if, reverse-iterator accessors.', '5.16'),
  'C01': ('proof', 'std::vector post-state (size, returned position, prefix preserved, new elements equal the argument) as ensures clauses over Skolemised cells, per operation under contract.', '5.1'),
 }
 
 NA = {
- 'C16': 'not yet claimed: comparison / non-member contracts not written yet',
  'C20': 'behaviour of a Python/natvis script inside a debugger: no contract on the C++ functions can express or decide it (DESIGN.md 5.20)',
 }
 
